@@ -335,6 +335,7 @@ def run(ctx):
     inputs, real_tables, owner = [], [], []
     outcome_hist, cfg_hist = {}, {}
     config_failures = []
+    entry_dependent = []  # verdict differs between configurations only because the tag lacks a type entry in one
     untyped_entry = []   # F70c08: the entry function's process tag has no Process type entry
     for li, o in enumerate(out):
         kind = o[1:o.find(" ")] if " " in o else o.strip("()")
@@ -356,10 +357,19 @@ def run(ctx):
         for i in range(len(structs)):
             for j in range(i + 1, len(structs)):
                 (na, (ta, pa)), (nb, (tb, pb)) = structs[i], structs[j]
+                # tags whose structural image has a type entry in BOTH configurations; a tag without an
+                # entry is never accepted (no_type_entry_never_accepted) — that class is has_type_entry's,
+                # counted separately
+                common = {t for t in ta if not t.startswith("!")} & {t for t in tb if not t.startswith("!")}
+                lacking = ({t[1:] for t in ta if t.startswith("!")} & {t for t in tb if not t.startswith("!")}) | \
+                          ({t[1:] for t in tb if t.startswith("!")} & {t for t in ta if not t.startswith("!")})
                 for pk in set(pa) & set(pb):
-                    for tk in ta & tb:
+                    for tk in common:
                         if (tk in pa[pk]) != (tk in pb[pk]):
                             config_failures.append((li, na, nb, pk, tk, tk in pa[pk]))
+                    for tk in lacking:
+                        if (tk in pa[pk]) != (tk in pb[pk]):
+                            entry_dependent.append((li, na, nb, pk, tk))
     rc2, model_tables = ctx.run_sharded(drv, inputs, timeout=1500)
     disagreements = 0
     rows_compared = 0
@@ -464,7 +474,8 @@ def run(ctx):
         "compile_outcomes": outcome_hist, "configurations_compared": len(inputs), "configurations_by_kind": cfg_hist,
         "table_rows_compared": rows_compared, "distinct_nontrivial": nontrivial,
         "rule": "every source string of quiver-tests, std/*.qv, examples, spec.md code blocks (+ corpus/c08_sources.txt; thorough: 1500 sequenced pairs), each in up to three configurations (as compiled, tree-shaken, merged behind 0-2 earlier programs); non-trivial = distinct CompatibilityInput (SHA-1) with a non-empty table row and a union or partial type",
-        "config_invariance_failures": len(config_failures), "configurations_with_untyped_entry_process_F70c08": len(untyped_entry),
+        "config_invariance_failures": len(config_failures), "verdicts_differing_only_by_missing_type_entry": len(entry_dependent),
+        "missing_type_entry_samples": [{"case": lines[li], "configurations": [na, nb], "pattern": pk, "tag": tk} for (li, na, nb, pk, tk) in entry_dependent[:3]], "configurations_with_untyped_entry_process_F70c08": len(untyped_entry),
         "e2e_cases_generated": len(e2e), "e2e_verdicts_compared": e2e_run, "e2e_mismatches": e2e_mismatch, "e2e_mismatches_matching_known_findings": known_hits, "e2e_mismatches_unmatched": unmatched, "e2e_pinned_probes": len(pinned),
         "e2e_outcomes": e2e_hist, "e2e_other_outcome_samples": odd_samples, "e2e_features": feat_hist,
         "traces_validated_against_impl": len(inputs) - disagreements, "disagreements_checked": disagreements,
